@@ -114,9 +114,13 @@ CanonP(x, h, path) ==
              [] o.k = "obj"  -> [k |-> "obj", f |-> CanonP(o.f, h, p),
                                  a  |-> [i \in DOMAIN o.a  |-> CanonP(o.a[i], h, p)],
                                  kw |-> [i \in DOMAIN o.kw |-> <<o.kw[i][1], CanonP(o.kw[i][2], h, p)>>],
-                                 s  |-> [i \in DOMAIN o.s  |-> CanonP(o.s[i], h, p)]]
+                                 s  |-> [i \in DOMAIN o.s  |-> CanonP(o.s[i], h, p)],
+                                 li |-> [i \in DOMAIN o.li |-> CanonP(o.li[i], h, p)],
+                                 di |-> [i \in DOMAIN o.di |-> <<CanonP(o.di[i][1], h, p), CanonP(o.di[i][2], h, p)>>]]
              [] o.k = "pers" -> [k |-> "pers", pid |-> CanonP(o.pid, h, p),
-                                 s  |-> [i \in DOMAIN o.s  |-> CanonP(o.s[i], h, p)]]
+                                 s  |-> [i \in DOMAIN o.s  |-> CanonP(o.s[i], h, p)],
+                                 li |-> [i \in DOMAIN o.li |-> CanonP(o.li[i], h, p)],
+                                 di |-> [i \in DOMAIN o.di |-> <<CanonP(o.di[i][1], h, p), CanonP(o.di[i][2], h, p)>>]]
 
 Canon(x, h) == CanonP(x, h, <<>>)
 
@@ -126,7 +130,7 @@ Canon(x, h) == CanonP(x, h, <<>>)
 NormT(c) ==
   IF c.k = "obj"
   THEN IF /\ c.f.k = "g" /\ c.f.m = "builtins" /\ c.f.n \in {"set", "frozenset"}
-          /\ Len(c.a) = 1 /\ Len(c.kw) = 0 /\ Len(c.s) = 0
+          /\ Len(c.a) = 1 /\ Len(c.kw) = 0 /\ Len(c.s) = 0 /\ Len(c.li) = 0 /\ Len(c.di) = 0
        THEN IF c.a[1].k \in {"list", "tuple", "set", "frozenset"}
             THEN [k |-> c.f.n, e |-> c.a[1].e] ELSE c
        ELSE c
@@ -137,6 +141,7 @@ SameSeq(a, b) == Len(a) = Len(b) /\ \A i \in DOMAIN a : SameVal(a[i], b[i])
 SameBag(a, b) == /\ \A i \in DOMAIN a : \E j \in DOMAIN b : SameVal(a[i], b[j])
                  /\ \A j \in DOMAIN b : \E i \in DOMAIN a : SameVal(a[i], b[j])
 SamePair(p, q) == SameVal(p[1], q[1]) /\ SameVal(p[2], q[2])
+SamePairs(a, b) == Len(a) = Len(b) /\ \A i \in DOMAIN a : SamePair(a[i], b[i])
 SameVal(x, y) ==
   LET a == NormT(x)  b == NormT(y) IN
   /\ a.k = b.k
@@ -152,7 +157,8 @@ SameVal(x, y) ==
        [] a.k = "obj"   -> /\ SameVal(a.f, b.f) /\ SameSeq(a.a, b.a) /\ SameSeq(a.s, b.s)
                            /\ Len(a.kw) = Len(b.kw)
                            /\ \A i \in DOMAIN a.kw : a.kw[i][1] = b.kw[i][1] /\ SameVal(a.kw[i][2], b.kw[i][2])
-       [] a.k = "pers"  -> SameVal(a.pid, b.pid) /\ SameSeq(a.s, b.s)
+                           /\ SameSeq(a.li, b.li) /\ SamePairs(a.di, b.di)
+       [] a.k = "pers"  -> SameVal(a.pid, b.pid) /\ SameSeq(a.s, b.s) /\ SameSeq(a.li, b.li) /\ SamePairs(a.di, b.di)
        [] OTHER         -> FALSE
 
 RECURSIVE HasCycle(_)
@@ -164,7 +170,11 @@ HasCycle(c) ==
                        \/ (\E i \in DOMAIN c.a : HasCycle(c.a[i]))
                        \/ (\E i \in DOMAIN c.kw : HasCycle(c.kw[i][2]))
                        \/ (\E i \in DOMAIN c.s : HasCycle(c.s[i]))
-    [] c.k = "pers" -> HasCycle(c.pid) \/ (\E i \in DOMAIN c.s : HasCycle(c.s[i]))
+                       \/ (\E i \in DOMAIN c.li : HasCycle(c.li[i]))
+                       \/ (\E i \in DOMAIN c.di : (HasCycle(c.di[i][1]) \/ HasCycle(c.di[i][2])))
+    [] c.k = "pers" -> \/ HasCycle(c.pid) \/ (\E i \in DOMAIN c.s : HasCycle(c.s[i]))
+                       \/ (\E i \in DOMAIN c.li : HasCycle(c.li[i]))
+                       \/ (\E i \in DOMAIN c.di : (HasCycle(c.di[i][1]) \/ HasCycle(c.di[i][2])))
     [] OTHER -> FALSE
 
 ---------------------------------------------------------------------------
@@ -175,6 +185,9 @@ EvCall(f, a, kw, h)   == [e |-> "call", f |-> Canon(f, h),
                           kw |-> [i \in DOMAIN kw |-> <<kw[i][1], Canon(kw[i][2], h)>>]]
 EvSetState(o, st, h)  == [e |-> "setstate", o |-> Canon(o, h), s |-> Canon(st, h)]
 EvPersId(pid, h)      == [e |-> "persid", pid |-> Canon(pid, h)]
+\* a stand-in object used as a container: obj.append / obj.extend, obj[k] = v
+EvAppend(o, items, h) == [e |-> "append", o |-> Canon(o, h), a |-> [i \in DOMAIN items |-> Canon(items[i], h)]]
+EvSetItem(o, k, v, h) == [e |-> "setitem", o |-> Canon(o, h), k |-> Canon(k, h), v |-> Canon(v, h)]
 
 SameEv(x, y) ==
   /\ x.e = y.e
@@ -183,6 +196,8 @@ SameEv(x, y) ==
                               /\ \A i \in DOMAIN x.kw : x.kw[i][1] = y.kw[i][1] /\ SameVal(x.kw[i][2], y.kw[i][2])
        [] x.e = "setstate" -> SameVal(x.o, y.o) /\ SameVal(x.s, y.s)
        [] x.e = "persid"   -> SameVal(x.pid, y.pid)
+       [] x.e = "append"   -> SameVal(x.o, y.o) /\ SameSeq(x.a, y.a)
+       [] x.e = "setitem"  -> SameVal(x.o, y.o) /\ SameVal(x.k, y.k) /\ SameVal(x.v, y.v)
        [] OTHER            -> FALSE
 
 ---------------------------------------------------------------------------
@@ -193,6 +208,14 @@ KwOK(h, x) == IsHeap(h, x, "dict") /\ \A i \in DOMAIN h[x.id].e : LET k == h[x.i
 KwOf(h, x) == [i \in DOMAIN h[x.id].e |-> <<h[x.id].e[i][1].s, h[x.id].e[i][2]>>]
 
 Unsupported == {"EXT1", "EXT2", "EXT4", "NEXT_BUFFER", "READONLY_BUFFER"}
+
+\* SETITEMS on a stand-in object: obj[k] = v for each pair in order, each observing the pairs set before it
+RECURSIVE SetItemsOnStub(_, _, _, _)
+SetItemsOnStub(s, o, items, below) ==
+  IF Len(items) < 2 THEN [s EXCEPT !.stack = below]
+  ELSE SetItemsOnStub([s EXCEPT !.ev = Append(@, EvSetItem(o, items[1], items[2], s.heap)),
+                                !.heap[o.id].di = Append(@, <<items[1], items[2]>>)],
+                      o, SubSeq(items, 3, Len(items)), below)
 
 Eff(op, s) ==
   LET stk   == s.stack
@@ -207,7 +230,7 @@ Eff(op, s) ==
       alloc(o, base) == [s EXCEPT !.heap = Append(hp, o), !.stack = Append(base, Ref(nid))]
       call(f, a, kw, base, pre) ==
           [s EXCEPT !.ev    = pre \o <<EvCall(f, a, kw, hp)>>,
-                    !.heap  = Append(hp, [k |-> "obj", f |-> f, a |-> a, kw |-> kw, s |-> <<>>]),
+                    !.heap  = Append(hp, [k |-> "obj", f |-> f, a |-> a, kw |-> kw, s |-> <<>>, li |-> <<>>, di |-> <<>>]),
                     !.stack = Append(base, Ref(nid))]
       top  == stk[n]
       top2 == stk[n - 1]
@@ -249,16 +272,27 @@ Eff(op, s) ==
                              ELSE IF \E i \in DOMAIN above : ~Hashable(hp, above[i]) THEN Err(s, "vm")
                              ELSE [s EXCEPT !.stack = Append(below, FSet(SetAddAll(<<>>, above)))]
     [] op.o = "APPEND" -> IF fr < 2 THEN Err(s, "vm")
+                          ELSE IF IsStubRef(hp, top2)
+                               THEN [s EXCEPT !.ev = Append(@, EvAppend(top2, <<top>>, hp)),
+                                              !.heap[top2.id].li = Append(@, top), !.stack = SubSeq(stk, 1, n - 1)]
                           ELSE IF ~IsHeap(hp, top2, "list") THEN Err(s, "typing")
                           ELSE [s EXCEPT !.heap[top2.id].e = Append(@, top), !.stack = SubSeq(stk, 1, n - 1)]
     [] op.o = "APPENDS" -> IF mi < 2 \/ IsMark(stk[mi - 1]) THEN Err(s, "vm")
+                           ELSE IF IsStubRef(hp, stk[mi - 1])
+                                THEN [s EXCEPT !.ev = Append(@, EvAppend(stk[mi - 1], above, hp)),
+                                               !.heap[stk[mi - 1].id].li = @ \o above, !.stack = below]
                            ELSE IF ~IsHeap(hp, stk[mi - 1], "list") THEN Err(s, "typing")
                            ELSE [s EXCEPT !.heap[stk[mi - 1].id].e = @ \o above, !.stack = below]
     [] op.o = "SETITEM" -> IF fr < 3 THEN Err(s, "vm")
+                           ELSE IF IsStubRef(hp, top3)
+                                THEN [s EXCEPT !.ev = Append(@, EvSetItem(top3, top2, top, hp)),
+                                               !.heap[top3.id].di = Append(@, <<top2, top>>), !.stack = SubSeq(stk, 1, n - 2)]
                            ELSE IF ~IsHeap(hp, top3, "dict") THEN Err(s, "typing")
                            ELSE IF ~Hashable(hp, top2) THEN Err(s, "vm")
                            ELSE [s EXCEPT !.heap[top3.id].e = DictPut(@, top2, top), !.stack = SubSeq(stk, 1, n - 2)]
     [] op.o = "SETITEMS" -> IF mi < 2 \/ IsMark(stk[mi - 1]) THEN Err(s, "vm")
+                            ELSE IF IsStubRef(hp, stk[mi - 1]) /\ fr % 2 = 0
+                                 THEN SetItemsOnStub(s, stk[mi - 1], above, below)
                             ELSE IF ~IsHeap(hp, stk[mi - 1], "dict") THEN Err(s, "typing")
                             ELSE IF fr % 2 = 1 THEN Err(s, "vm")
                             ELSE IF \E i \in EvenIdx(above) : ~Hashable(hp, above[i]) THEN Err(s, "vm")
@@ -288,11 +322,11 @@ Eff(op, s) ==
                                         !.stack = SubSeq(stk, 1, n - 1)]
     [] op.o = "BINPERSID" -> IF fr < 1 THEN Err(s, "vm")
                              ELSE [s EXCEPT !.ev = Append(@, EvPersId(top, hp)),
-                                            !.heap = Append(hp, [k |-> "pers", pid |-> top, s |-> <<>>]),
+                                            !.heap = Append(hp, [k |-> "pers", pid |-> top, s |-> <<>>, li |-> <<>>, di |-> <<>>]),
                                             !.stack = Append(SubSeq(stk, 1, n - 1), Ref(nid))]
     [] op.o = "PERSID" -> LET pid == Const("str", op.v, op.h, op.s) IN
                           [s EXCEPT !.ev = Append(@, EvPersId(pid, hp)),
-                                    !.heap = Append(hp, [k |-> "pers", pid |-> pid, s |-> <<>>]),
+                                    !.heap = Append(hp, [k |-> "pers", pid |-> pid, s |-> <<>>, li |-> <<>>, di |-> <<>>]),
                                     !.stack = Append(stk, Ref(nid))]
     [] op.o = "STOP"  -> IF fr >= 1 THEN [s EXCEPT !.st = "stop", !.res = top, !.stack = SubSeq(stk, 1, n - 1)]
                          ELSE Err(s, "vm")
